@@ -349,6 +349,29 @@ func roundTrip(r *vk.Run, zone string, proto any, sl []slot, set map[int]reflect
 			return reflect.ValueOf(x), nil
 		},
 	}
+	// a receiver that is not fresh: every pointer field of one type points at ONE shared object (a
+	// template whose optional fields all refer to the same "unset" value), the rest is zero. What a
+	// message decodes to does not depend on what the receiver held, and distinct fields stay distinct.
+	hasPtr := false
+	for _, s := range sl {
+		hasPtr = hasPtr || s.typ.Kind() == reflect.Ptr
+	}
+	if hasPtr {
+		decoders["Unmarshal(receiver with aliased pointer fields)"] = func() (reflect.Value, error) {
+			p := reflect.New(t)
+			shared := map[reflect.Type]reflect.Value{}
+			for _, s := range sl {
+				if s.typ.Kind() == reflect.Ptr {
+					if _, ok := shared[s.typ]; !ok {
+						shared[s.typ] = reflect.New(s.typ.Elem())
+					}
+					p.Elem().FieldByIndex(s.index).Set(shared[s.typ])
+				}
+			}
+			err := codec.Unmarshal(enc, p.Interface())
+			return p.Elem(), err
+		}
+	}
 	for name, dec := range decoders {
 		var got reflect.Value
 		var derr error
@@ -761,7 +784,7 @@ func main() {
 	r.Distinct(distinct)
 	r.Sample(map[string]any{"type": "PutCardRequest", "fields": "CardNumber=0x01020304 From=2024-02-29 To=9999-12-31 Door1..4 PIN=999999", "check": "Unmarshal(Marshal(v)) == v, UnmarshalAs likewise"})
 	r.Sample(map[string]any{"type": "GetTimeResponse", "zone": "Asia/Tehran", "fields": "DateTime=<zero>", "check": "decodes back to the zero value"})
-	r.Rule("(A) 65 message struct types: baseline + all-zero value + every field over its in-domain alphabet (all uint8, all 1441 HH:mm, 15 civil dates incl. the zero value, date-times incl. zero, ...) + all field pairs over boundary alphabets + every ordered pair of boundary values of one field as two consecutive round trips, through Unmarshal and UnmarshalAs, every decode from one reused 64-byte input buffer that is overwritten afterwards; date-bearing types repeated in every listed zone; (B) every uncovered byte x 255 values for 32 request + 31 reply layouts through the dispatchers; (C) 256 codes x 4 protocol ids x lengths 0..128 (all lengths for 16 codes, stride otherwise) through both dispatchers; (D) every message type either dispatcher returns for any of the 256 codes, decoded directly from datagrams carrying each of the 255 other codes and 3 protocol ids: must fail. distinct = cases generated (each a distinct value/byte string)")
+	r.Rule("(A) 65 message struct types: baseline + all-zero value + every field over its in-domain alphabet (all uint8, all 1441 HH:mm, 15 civil dates incl. the zero value, date-times incl. zero, ...) + all field pairs over boundary alphabets + every ordered pair of boundary values of one field as two consecutive round trips, through Unmarshal, UnmarshalAs and (types with pointer fields) Unmarshal into a receiver whose pointer fields all refer to one shared object, every decode from one reused 64-byte input buffer that is overwritten afterwards; date-bearing types repeated in every listed zone; (B) every uncovered byte x 255 values for 32 request + 31 reply layouts through the dispatchers; (C) 256 codes x 4 protocol ids x lengths 0..128 (all lengths for 16 codes, stride otherwise) through both dispatchers; (D) every message type either dispatcher returns for any of the 256 codes, decoded directly from datagrams carrying each of the 255 other codes and 3 protocol ids: must fail. distinct = cases generated (each a distinct value/byte string)")
 	r.Assume("which bytes belong to a field comes from the hand-written layouts in spec/protocol.go")
 	r.Assume("in-domain date-times are civil times that exist in the process zone (constructed with time.Date in that zone)")
 	r.Finish()
